@@ -618,18 +618,24 @@ class Pipeline(Suite):
             for tr in reversed(invs):
                 cur = tr(cur)
             res["back"] = cur.xyz().astype(np.float64).tolist()
+        # the same steps through the library's own composition `Transforms(*steps)(tree)` (compared with the GENERATED `Transforms.__call__`)
+        from swcgeom.transforms import Transforms
+
+        comp = Transforms(*trs)(t)
+        res["composed"] = {"xyz": comp.xyz().astype(np.float64).tolist(), "pid": comp.pid().tolist(), "type": comp.type().tolist(),
+                           "id": comp.id().tolist(), "r": comp.r().astype(np.float64).tolist()}
         return res
 
     def lines(self, case, res):
-        """the GENERATED `Transforms.__call__` on the generated classes of the steps, run on the whole tree by the driver (the real run applies
-        the steps one by one: the composition is what `Transforms(*steps)` computes)"""
-        if "exc" in res or not res.get("after"):
+        """the GENERATED `Transforms.__call__` on the generated classes of the steps, run on the whole tree by the driver, against the real
+        `Transforms(*steps)(tree)`"""
+        if "exc" in res or not res.get("after") or "composed" not in res:
             return []
-        t = case["tree"]
+        t, c = case["tree"], res["composed"]
         steps = ";".join("/".join(_gen_step(s["kind"], s["a"], s["center"])) for s in case["steps"])
         big = max([1.0] + [abs(v) for g in res["after"] for p in g for v in p])
         return [(f"gpipe steps={steps} {_tree_args(t)}",
-                 {"approx": _tree_out(res["after"][-1], res["id"], res["pid"], res["type"], res["r"]), "rtol": 1e-4, "atol": 5e-3 + 1e-5 * big})]
+                 {"approx": _tree_out(c["xyz"], c["id"], c["pid"], c["type"], c["r"]), "rtol": 1e-4, "atol": 5e-3 + 1e-5 * big})]
 
     def oracle(self, case, res):
         try:
